@@ -78,6 +78,18 @@ func c05Decls(rt *rapid.T, pool *gen.Pool) []*refmodel.Decl {
 		}
 		perm := rapid.Permutation(cands).Draw(rt, "refperm")[:k]
 		op := rapid.SampledFrom([]string{"contains", "!contains"}).Draw(rt, "refop")
+		// the reference may spell out the table (validation resolves it from the integration
+		// whatever the file says)
+		mkRef := func(r *refmodel.Decl) *refmodel.Ref {
+			ref := &refmodel.Ref{Integration: r.Name, Column: refCol(r)}
+			switch rapid.IntRange(0, 3).Draw(rt, "spelltable") {
+			case 0:
+				ref.Table = r.Table
+			case 1:
+				ref.Table = "elsewhere"
+			}
+			return ref
+		}
 		var d *refmodel.Decl
 		if rapid.Bool().Draw(rt, "deplog") {
 			// event input references
@@ -95,18 +107,23 @@ func c05Decls(rt *rapid.T, pool *gen.Pool) []*refmodel.Decl {
 			d.Columns = []refmodel.Column{{Name: "a", Type: "bytea"}, {Name: "b", Type: "bytea"}, {Name: "v", Type: "numeric"}, col("block_time")}
 			d.Block = []refmodel.BlockField{bf("block_time")}
 			for j, r := range perm {
-				d.Filters[refInputs[j]] = &refmodel.Filter{Op: op, Ref: &refmodel.Ref{Integration: r.Name, Column: refCol(r)}}
+				d.Filters[refInputs[j]] = &refmodel.Filter{Op: op, Ref: mkRef(r)}
 			}
 		} else {
 			d = &refmodel.Decl{Name: name, Enabled: true, Table: name, Filters: map[*refmodel.Type]*refmodel.Filter{}}
 			d.Block = []refmodel.BlockField{bf("tx_to"), bf("tx_signer"), bf("tx_hash"), bf("block_time")}
 			d.Columns = []refmodel.Column{col("tx_to"), col("tx_signer"), col("tx_hash"), col("block_time")}
 			for j, r := range perm {
-				d.Block[j].Filter = &refmodel.Filter{Op: op, Ref: &refmodel.Ref{Integration: r.Name, Column: refCol(r)}}
+				d.Block[j].Filter = &refmodel.Filter{Op: op, Ref: mkRef(r)}
 			}
 		}
 		if k == 2 {
 			d.FilterAgg = rapid.SampledFrom([]string{"and", "or"}).Draw(rt, "agg")
+		}
+		// the dependant may write to the table of an integration it references (same row identity:
+		// see the open finding on shared tables)
+		if identitySig(perm[0]) == identitySig(d) && rapid.IntRange(0, 2).Draw(rt, "sharereftable") == 0 {
+			d.Table = perm[0].Table
 		}
 		decls = append(decls, d)
 	}
